@@ -104,6 +104,22 @@ class STensor(Symbolic):
         born = _CLOCK[0]
         self._versions.append((born, STensor._stamped(new, born)))
 
+    def _write(self, it, newfn):
+        """in-place update of this tensor object: a new version of its index function; a tensor obtained by basic indexing /
+        detach() / float() of another one is a VIEW of it (same storage): the update is written through to the tensor it views"""
+        self.fn = newfn
+        v = getattr(self, "_view", None)
+        if v is None:
+            it.cx.log_write(("obj", id(self), None))        # (a view has no storage of its own: the write is the viewed tensor's)
+        else:
+            base, in_view, to_view = v
+            old = base.fn
+            nf = self.fn
+            base._write(it, lambda b: z3.If(in_view(b), nf(to_view(b)), old(b)) if not z3.is_true(in_view(b)) else nf(to_view(b)))
+        st = getattr(self, "_storage_of", None)
+        if st is not None and st is not self:
+            st._write(it, self.fn)          # copy.copy(tensor): another object on the same storage
+
     # ------------------------------------------------------------------ construction helpers
     @staticmethod
     def sym(cx, name, shape, dtype="real"):
@@ -221,6 +237,20 @@ class STensor(Symbolic):
         if o is None:
             return NotImplemented
         a, b = (o, self) if rev else (self, o)
+        if inplace and not rev:
+            # t op= other: the SAME tensor object is updated (every holder of it -- a cache, a snapshot by reference -- sees it)
+            cur = STensor(self.shape_, self.fn, self.dtype, self.name)
+            r = tensor_binop(it, name, cur, o, node)
+            if len(r.shape_) != len(self.shape_) or any(dim_eq(x, y) is not True and it.cx.check(dim_z3(x) != dim_z3(y)) != z3.unsat
+                                                       for x, y in zip(r.shape_, self.shape_)):
+                raise OutOfSubset("in-place tensor operator whose result has another shape than its target", node)
+            if r.dtype != self.dtype:
+                if self.dtype == "real":
+                    r = STensor(r.shape_, r.elem_real, "real")
+                else:
+                    raise OutOfSubset("in-place tensor operator changing the element type", node)
+            self._write(it, r.fn)
+            return self
         return tensor_binop(it, name, a, b, node)
 
     def _compare(self, it, name, other, rev, node):
@@ -587,11 +617,42 @@ def tensor_getitem(it, t: STensor, idx, node=None):
             else:
                 src_idx.append(p[1])
         return t.fn(tuple(src_idx))
-    return STensor(tuple(new_shape), fn, t.dtype)
+    out = STensor(tuple(new_shape), fn, t.dtype)
+    # basic indexing returns a view: an in-place update of the result is an update of t (STensor._write)
+    shapes_out = list(new_shape)
+
+    def in_view(b):
+        cs, k_src, k_out = [], 0, 0
+        for p in plan:
+            if p[0] == "new":
+                k_out += 1
+                continue
+            if p[0] == "fix":
+                cs.append(b[k_src] == p[1])
+            else:
+                lo_, nd_ = p[1], shapes_out[k_out]
+                full = isinstance(lo_, int) and lo_ == 0 and (nd_ is t.shape_[k_src] or dim_eq(nd_, t.shape_[k_src]) is True)
+                if not full:
+                    cs.append(z3.And(dim_z3(lo_) <= b[k_src], b[k_src] < dim_z3(lo_) + dim_z3(nd_)))
+                k_out += 1
+            k_src += 1
+        return z3.And(*cs) if len(cs) > 1 else (cs[0] if cs else z3.BoolVal(True))
+
+    def to_view(b):
+        o, k_src = [], 0
+        for p in plan:
+            if p[0] == "new":
+                o.append(z3.IntVal(0))
+                continue
+            if p[0] == "var":
+                o.append(b[k_src] if (isinstance(p[1], int) and p[1] == 0) else b[k_src] - dim_z3(p[1]))
+            k_src += 1
+        return tuple(o)
+    out._view = (t, in_view, to_view)
+    return out
 
 
 def tensor_setitem(it, t: STensor, idx, v, node=None):
-    it.cx.log_write(("obj", id(t), None))
     old = t.fn
     if isinstance(idx, STensor) and idx.dtype == "bool":
         mask = idx
@@ -606,7 +667,8 @@ def tensor_setitem(it, t: STensor, idx, v, node=None):
                 raise OutOfSubset("masked assignment of a non-scalar", node)
             e = vt.elem_real(()) if t.dtype == "real" else vt.fn(())
             newf = lambda idx_: e
-        t.fn = lambda i: z3.If(mask.fn(_op_idx(i, mask.shape_, pb)), newf(i), old(i))
+        mf = mask.fn
+        t._write(it, lambda i: z3.If(mf(_op_idx(i, mask.shape_, pb)), newf(i), old(i)))
         return
     items = _norm_index(t, idx)
     if any(i is None for i in items):
@@ -647,7 +709,7 @@ def tensor_setitem(it, t: STensor, idx, v, node=None):
         sub = tuple((i[k] - ranges[k][0] if k in ranges else i[k]) for k in free_dims)
         val = vt.elem_real(_op_idx(sub, vt.shape_, pb)) if t.dtype == "real" else vt.fn(_op_idx(sub, vt.shape_, pb))
         return z3.If(sel, val, old(i))
-    t.fn = newfn
+    t._write(it, newfn)
 
 
 def simplify_dim(cx, d):
@@ -1120,10 +1182,30 @@ def t_all(it, t, dim=None, **kw):
     return reduce_quant(it, t, dim, True)
 
 
-@tmethod("float", "double", "clone", "detach", "cpu", "contiguous", "numpy")
+@tmethod("double", "clone", "numpy")
 def t_float(it, t, *a, **k):
     if t.dtype == "real":
         return STensor(t.shape_, t.fn, "real")
+    return STensor(t.shape_, t.elem_real, "real")
+
+
+def _alias(t):
+    r = STensor(t.shape_, t.fn, t.dtype, t.name)
+    r._view = (t, lambda b: z3.BoolVal(True), lambda b: tuple(b))
+    return r
+
+
+@tmethod("detach", "cpu", "contiguous")
+def t_detach(it, t, *a, **k):
+    """same storage as t (an in-place update of the result is an update of t)"""
+    return _alias(t)
+
+
+@tmethod("float")
+def t_float32(it, t, *a, **k):
+    """a float32 tensor is returned as it is (same storage); another element type is converted (new storage)"""
+    if t.dtype == "real":
+        return _alias(t)
     return STensor(t.shape_, t.elem_real, "real")
 
 
@@ -1332,9 +1414,8 @@ def t_clamp_inplace(it, t, min=None, max=None):
                 raise OutOfSubset("clamp_ with a non-scalar tensor bound")
             return SV(b.elem_real(()), "real")
         return b
-    new = t_clamp(it, t, min=bound(min), max=bound(max))
-    t.fn = new.fn
-    it.cx.log_write(("obj", id(t), None))
+    new = t_clamp(it, STensor(t.shape_, t.fn, t.dtype), min=bound(min), max=bound(max))
+    t._write(it, new.fn)
     return t
 
 
